@@ -2,8 +2,9 @@
 """Generate /verif/MANIFEST.json from the table below (keeps the manifest valid and in one place)."""
 import json, subprocess
 
-ENGINE_NAME = {"KL": "coresim (core timed-history simulation) + loopsim (the same monitor at every routing decision of the real shell)", "TS": "tasksim (task-schedule simulation) + shuttlesim (thread-schedule simulation of the configuration under shuttle)", "LK": "loopsim (event-loop simulation) + coresim (the bare scheduler on generated timed histories)", "LW": "loopsim (event-loop simulation) + wholeloop (the real select! loop on a paused, seeded tokio runtime)", "L": "loopsim (event-loop simulation)", "K": "coresim (core timed-history simulation)", "T": "tasksim (task-schedule simulation)"}
+ENGINE_NAME = {"KW": "coresim (core timed-history simulation) + wholeloop (the real select! loop on a paused, seeded tokio runtime)", "KL": "coresim (core timed-history simulation) + loopsim (the same monitor at every routing decision of the real shell)", "TS": "tasksim (task-schedule simulation) + shuttlesim (thread-schedule simulation of the configuration under shuttle)", "LK": "loopsim (event-loop simulation) + coresim (the bare scheduler on generated timed histories)", "LW": "loopsim (event-loop simulation) + wholeloop (the real select! loop on a paused, seeded tokio runtime)", "L": "loopsim (event-loop simulation)", "K": "coresim (core timed-history simulation)", "T": "tasksim (task-schedule simulation)"}
 TECH = {
+    "KW": "deterministic simulation with fault injection: seeded timed event histories on the real sans-IO core under a virtual clock (NAK bursts, recovery ticks at every spacing and RTT velocity, resets, mode changes) with invariant monitors, plus whole-loop runs of the real run_sender_with_config on a paused-clock current-thread tokio runtime with seeded select! order, run-time mode switches and a wire-level oracle on the keepalive telemetry; seed+plan replay",
     "KL": "deterministic simulation with fault injection: seeded timed event histories on the real sans-IO core under a virtual clock (silence, ACK starvation, RTT inflation, loss bursts, resets) plus the same temporal/invariant monitor fed from every routing decision of seeded closed-loop runs on the real shell arms (virtual clock, socket seams, black holes, reloads); seed+plan replay",
     "TS": "deterministic simulation with fault injection: own seeded single-thread executor interleaving control clients line by line (malformed-line faults, reference configuration model, entry-point differential) plus shuttle's seeded random / PCT schedulers over setter and reader threads with the configuration atomics replaced by shuttle's; seed+plan replay",
     "LK": "deterministic simulation with fault injection: seeded event-loop simulator around the real shell arms (virtual clock, in-memory socket seams, fault actions) plus seeded timed event histories on the real core for the bare scheduler; independent eligibility model at every routing decision; seed+plan replay",
@@ -31,17 +32,17 @@ P = {
    "Closed-loop simulation with probe copies, re-routed retransmissions, sequence strides colliding modulo 16384, an exact 5000/5001 ms expiry-boundary scenario under a silent receiver, reload removing links, and NAK lists (singles, ranges, repeats, unknown numbers) from the receiver model and forged; every NAK entry is judged against an independent ownership table and the exact charge arithmetic (+1 loss count, -100 floored at 1000, -1 in-flight) is checked per datagram. Seeded sampling of histories.",
    "Trusted: which holder lost a NAKed number is read from the packet log after the datagram (one datagram per step). For a NAK the sender has no record for, charging any one holder or nobody is accepted.",
    "§P-C05"),
- "C10": (True, "L", "exploration",
+ "C10": (True, "LW", "exploration",
    "Closed-loop simulation in classic mode with the stall guard off from random window vectors, with R-flagged data, critical windows, SRTLA ACKs, cumulative ACKs, NAKs, resets and housekeeping ticks (some runs start in enhanced mode and switch, leaving quality caches stale); an independent re-implementation of the reference rules predicts every routing choice and every window from the observed pre-state of each step (stepwise refinement, so one divergence is localised to one event). Seeded sampling of histories.",
-   "Trusted: usable = REG3 since last reset, connected, heard within the configured timeout (monitor's own stamps); the link a NAK was charged to is taken from observation (C05 judges it).",
+   "Trusted: usable = REG3 since last reset, connected, heard within the configured timeout (monitor's own stamps); the link a NAK was charged to is taken from observation (C05 judges it). One run in seven executes the real run_sender_with_config (engine W) with run-time mode switches on a mostly idle session: while the configured mode is classic, two consecutive keepalives of a link with no ACK / NAK / reset in between must report the same window (the housekeeping arm of src/sender/mod.rs, which engine L only mirrors).",
    "§P-C10"),
  "C07": (True, "L", "fault_enumeration",
    "Simulation of the real registration manager inside the real shell (uplink_recv, housekeeping) on 2..3 uplinks with start-up probing, against an adversarial receiver (up to 14 handshake packets of every kind - REG_NGP, REG2 well-formed / short / over-long / wrong link / foreign id, REG3, REG_ERR - on any link at instants straddling the 1 s / 2 s / 4 s / 5 s deadlines by +-1 ms, late, twice or never) and against the cooperative receiver with loss, delay, black holes and restarts; a wire-level protocol monitor evaluates the eight clauses of the statement after every step and bounded liveness in clean runs. Seeded sampling of packet/tick sequences to bounded depth.",
    "Trusted: the immediate REG1 answering a REG_NGP is judged by the one-outstanding rule only (the 'only while no uplink is registered' clause is about the housekeeping driver). Reload is outside C07's quantifier.",
    "§P-C07"),
- "C08": (True, "L", "fault_enumeration",
+ "C08": (True, "LW", "fault_enumeration",
    "Simulation of the whole recovery loop (housekeeping -> reconnect -> REG2/REG1 -> REG3 -> warming) on 2..4 uplinks over 15 s to 10 virtual minutes with per-link fault/repair schedules (black holes in either direction, total loss, lost handshake replies, receiver restarts, send errors, bind failures) across the clamped timeout range and both modes; monitors for tear-down cause, retry spacing and back-off cap, bounded liveness with a precondition evaluated from the plan and the receiver model at every tick, clean rejoin, and survivors carrying the stream. Seeded sampling of fault schedules.",
-   "Trusted: receiver expiry 10 s as in srtla_rec and its accept rules as modelled; bounded liveness is judged only for links whose path has no random loss, no fault left on at the end of the plan and no bind failure (not among the listed fault kinds); a delivered REG_ERR is the peer's rejection, not a sender-side tear-down.",
+   "Trusted: receiver expiry 10 s as in srtla_rec and its accept rules as modelled; bounded liveness is judged only for links whose path has no random loss, no fault left on at the end of the plan and no bind failure (not among the listed fault kinds); a delivered REG_ERR is the peer's rejection, not a sender-side tear-down. One run in seven executes the real run_sender_with_config (engine W, short horizons, no send faults): a registered uplink's socket is replaced only after the uplink has heard nothing for the configured timeout.",
    "§P-C08"),
  "C09": (True, "LW", "fault_enumeration",
    "Simulation of the real uplink receive path (handle_uplink_packet / process_uplink_packet / process_connection_events) with 50..600 adversarial datagrams per run (type codes swept over the whole 16-bit space across runs, lengths 0..1500, truncated and forged ACK/NAK/keepalive) on every uplink in every link state, before and after the client address is known, with WouldBlock and hard errors injected on the client socket; relay ledger at the client seam, liveness-stamp differential and delivery-proof rule after every step; a panic outside the simulator is a violation. Seeded sampling of inputs and histories.",
@@ -63,9 +64,9 @@ P = {
    "Timed event histories on the real core (1..4 links; REG3 / REG_ERR / tear-downs, RTT baselines, backlogs, earned and cumulative ACKs, NAKs, echoes, weak / loss-degraded / CC-target stamps, bitrates, clock advances around every boundary, configuration and guard toggles, any previous index) with routing decisions throughout; at every decision an independent usable set (REG3 since last reset, connected, heard within the timeout by the monitor's own stamps, computed from the events alone) must imply that the real select_connection_idx returns a valid index, in both modes and with every gate combination reached. Seeded sampling of histories; reach is reported as decisions with gates engaged / every link under some gate / single usable link.",
    "Trusted: state is built through the real event API; direct writes only to glue inputs (weak, loss_degraded, cc_target_bps), in-range windows and measured quantities. The few shell lines that stamp core state are mirrored. One run in twenty-one is a closed-loop run on the real shell (engine L: override, reload shrinking the link list to a stall-gated link, weak / loss-degraded stamps on every link between two ticks) in which a client datagram must be queued whenever the monitor's own usable set is non-empty.",
    "§P-C03"),
- "C06": (True, "K", "exploration",
+ "C06": (True, "KW", "exploration",
    "Timed histories of earned SRTLA ACKs with the global +1, raw ACK-rule calls with in-flight arguments up to i32::MAX, NAKs isolated and in bursts, time-based recovery at spacings from 0 ms to minutes and RTT velocities from negative to > 2, housekeeping ticks, mark_for_recovery / reconnect / REG3 / REG_ERR, both modes with configuration changed mid-history, from boundary and random starting windows; after every event: range [1000, 60000], direction by event kind, fast-recovery entry (<= 2000) and exit (>= 12000 or reset), 20000 after a tear-down, no change on a classic tick; arithmetic overflow is a panic, hence a violation. Inductive invariant sampled over seeded histories.",
-   "Trusted: starting windows written directly but inside the range; the per-link housekeeping calls are mirrored (engine L's C10 monitor checks 'classic housekeeping changes no window' on the real shell).",
+   "Trusted: starting windows written directly but inside the range; the per-link housekeeping calls are mirrored (engine L's C10 monitor checks 'classic housekeeping changes no window' on the real shell). One run in three hundred executes the real run_sender_with_config (engine W) with run-time mode switches: while the configured mode is classic, consecutive keepalives of a link with no ACK / NAK / reset in between report the same window.",
    "§P-C06"),
  "C11": (True, "KL", "exploration",
    "Selection histories (generator shared with C03); at every enhanced-mode decision the monitor recomputes eligibility, in-flight cap, 2 % quality gate, 80 % warming weight and soft-cap factor from the pre-state with its own formulas (quality multiplier read back and range-checked in [0.35, 1.1 x 1.03]) and checks the decision relations with relative tolerance 1e-9 (chosen not skipped; capped not chosen while an unconstrained link exists; a switch needs >= 1.10x; a hold means nobody reaches 1.10x; otherwise argmax) plus idempotence on the resulting state. Seeded sampling of score space incl. equal and zero scores, stale caches, skipped previous link.",
